@@ -270,6 +270,18 @@ func c07Check(c C07Case, rec *Recorder) *Disc {
 	if cfgJSON(m.Config()) != cfgJSON(freshMW(final).Config()) {
 		return discf("start %s, operations %v: final Config() %s, model state %s", s0, hist, cfgJSON(m.Config()), final)
 	}
+	// after the request and all operations have completed only the final state is current: every
+	// later request is answered by it alone (nothing an in-flight request learnt under an earlier
+	// state survives the reconfiguration)
+	// (the request that was in flight is repeated first, then the others in rotation)
+	later := append(append([]Req{}, c07Requests[c.Req:]...), c07Requests[:c.Req]...)
+	after := SuiteSig(NewServer(m.Wrap).Wrap, later)
+	wantAfter := SuiteSig(freshMW(final).Wrap, later)
+	rec.Eval(len(after))
+	if j := firstDiff(wantAfter, after); j >= 0 {
+		return discf("start %s, request {%s}, operations injected at %v in order %v: once everything has completed the state is %s, but the later request {%s} is answered with %s instead of that state's %s",
+			s0, req.Brief(), planKeys(c.Plan), hist, final, later[j].Brief(), abbrev(after[j], 400), abbrev(wantAfter[j], 400))
+	}
 	distinct := map[string]bool{}
 	for _, s := range sigs {
 		distinct[s] = true
@@ -306,7 +318,7 @@ func TestC07(t *testing.T) {
 	Prop[C07Case]{ID: "C07", Part: "schedule", Gen: c07Gen, Check: c07Check,
 		Rule: "(a) owned schedule: start state in {passthrough, 4 configurations differing in every observable aspect} x debug, one of 14 requests (succeeding/failing preflights, actual, non-CORS) and an injection plan: at 1-3 hand-over points " +
 			"(k-th ResponseWriter.Header() call, WriteHeader, Write, entry of the wrapped handler) 1-4 operations from {Reconfigure(cfg), Reconfigure(nil), Reconfigure(invalid), SetDebug(b), Config()} run to completion on another goroutine. " +
-			"Oracle: the response equals the response of a FRESH middleware in one single (configuration, debug) state that was current between request start and end; every injected Config() equals the normal form of the state current at that moment; the final state matches the model. " +
+			"Oracle: the response equals the response of a FRESH middleware in one single (configuration, debug) state that was current between request start and end; every injected Config() equals the normal form of the state current at that moment; the final state matches the model, and the 14 requests served afterwards are all answered by the final state alone. " +
 			"non-trivial = the candidate states answer the request differently and at least two operations ran or one ran after the first hand-over; distinct by (start, request, plan).",
 		Assumptions: []string{"operations injected at a hand-over point are joined with a 1 s grace period; a case in which one of them times out is not judged at all (later operations may overtake it), so the timeout is never a verdict",
 			"interleavings between hand-over points are only sampled by the stress part"}}.Run(t)
